@@ -40,7 +40,7 @@ RULE = (
     "sock_timeout, api408, api_other (400/404/409/429/500/503), transport_other (SerializationError/TransportError/SniffingError); "
     "afterwards the delegate succeeds) x parameters (retries 0-5 or omitted, retry-until-success omitted/true/false, retry-wait-period "
     "omitted/0/0.25/0.5/2, retry-on-timeout and retry-on-error omitted/true/false, constructor default of retry-until-success) x a "
-    "per-attempt service time from {0, 1/1024, 1/4} s. Exhaustive sub-domain: every sequence of length 0-4 over the 9 classes (7381) x "
+    "per-attempt service time from {0, 1/1024, 1/4} s; 1 in 4 generated cases invokes the same wrapper 2-3 times with the same params dict object (script replayed). Exhaustive sub-domain: every sequence of length 0-4 over the 9 classes (7381) x "
     "parameter grid (quick: the 22 behaviourally distinct (attempt cap, retry-on-error, retry-on-timeout) combinations with rotating "
     "wait period / omitted-or-explicit spelling, plus the empty parameter set and constructor-default-overridden; thorough: the full 1080-point grid incl. the constructor default). Non-trivial = the real code made >= 2 attempts "
     "and the attempted outcomes belong to >= 2 different classes. Distinct = distinct canonical JSON."
@@ -284,6 +284,22 @@ def run_case(case, obs):
         retrier = runner.Retry(delegate, retry_until_success=True)
     else:
         retrier = runner.Retry(delegate)
+    # A task executes its operation many times: the same runner object is invoked again, and a parameter source may hand out the same
+    # dict object every time (the default ParamSource does). Every invocation has to behave as configured: the script is replayed.
+    for invocation in range(case.get("invocations", 1)):
+        delegate.calls = []
+        before = len(obs.violations)
+        _one_invocation(case, obs, loop, retrier, delegate, es, params)
+        if invocation > 0:
+            obs.cls("invoked-again-with-same-params-object")
+            if len(obs.violations) > before:
+                obs.violations[before:] = [(f"{sig}@invocation-{invocation + 1}", msg) for sig, msg in obs.violations[before:]]
+        if len(obs.violations) > before:
+            break
+
+
+def _one_invocation(case, obs, loop, retrier, delegate, es, params):
+    outcomes = case["outcomes"]
     t_begin = loop.time()
     returned = raised = None
     runaway = False
@@ -428,7 +444,10 @@ def _case(draw):
         head = draw(st.lists(_outcome(st.sampled_from(_RETRYABLE_HEAVY)), min_size=n - 1, max_size=n - 1))
         outcomes = head + [draw(_outcome(st.sampled_from(CLASSES + ["api_other", "api_other", "nondict"])))]
     svc = draw(st.lists(st.sampled_from([0, 0, 1, 2]), min_size=n, max_size=n))
-    return {"outcomes": outcomes, "params": params, "ctor_rus": bool(ctor_rus), "svc": svc}
+    case = {"outcomes": outcomes, "params": params, "ctor_rus": bool(ctor_rus), "svc": svc}
+    if draw(st.integers(0, 3)) == 0:
+        case["invocations"] = draw(st.sampled_from([2, 2, 3]))
+    return case
 
 
 def strategy(tier, known):
